@@ -25,7 +25,7 @@ fn dec(t: &[String]) -> Option<C> {
 fn valid(c: &C) -> bool { c.qs.iter().all(|q| q.0 < q.1) && c.h.all_intervals().iter().all(|x| x.0 < x.1) && c.probe.0 < c.probe.1 }
 
 fn put_se<'a>(w: &mut W, it: impl Iterator<Item = &'a Iv>) {
-    let v: Vec<&Iv> = it.collect();
+    let v: Vec<&Iv> = super::common::drain_mode(it, super::common::next_mode());
     w.n(v.len());
     for i in v { w.n(i.start).n(i.stop); }
 }
